@@ -172,16 +172,22 @@ H_R == { Hdr(<<DLet("a", I1), DLet("n", NumI(4)), DLet("y", FE6), DLet("w", FNEG
          Hdr(<<DLet("a", I1), DLet("n", NumI(4)), DLet("y", FBIG), DLet("w", INEG)>>,
              <<DReg("q", NumI(4)), DSlice("r", "q", None, I3, None), DIndex("s", "r", I0), DSlice("v", "q", I1, None, I2)>>,
              <<"mypulses.sub">>, <<>>) }
-M_R == << MD("m", <<"x", "p">>, {"seq", "par"}, { G("g", <<Par("x"), Par("p")>>), G("h", <<Qb("q", Par("p"))>>) }, { OSub(Let("a")) }, 1) >>
+\* (the second parameter is named like the constant a, which top-level statements use: the generator moves macro
+\*  definitions in front of the body, so a text with the macro AFTER such a statement tests that the definition does
+\*  not disturb the outer binding)
+M_R == << MD("m", <<"x", "a">>, {"seq", "par"}, { G("g", <<Par("x"), Par("a")>>), G("h", <<Qb("q", Par("a"))>>) }, { OSub(Let("n")) }, 1) >>
 T_R == { G("g", <<QI("q", 0), F15>>), G("g", <<QAl("s"), Let("y")>>), G("h", <<QI("r", 1)>>), G("g", <<QI("v", 0), FE6>>),
          G("m", <<QI("q", 2), I2>>), G("k", <<FNEG, INEG, FBIG>>) }
 O_R == { OSeq, OPar, OLoop(Let("a"), FALSE), OLoop(I3, TRUE), OSub(I1), OSub(NumI(5)), OSub(Let("n")) }
 
 \* ---------------------------------------------------------------- C16: executable texts with loop counts at the edge
 \* (gate definitions come from the pulse fixture harness/pulses/vpulses.py through a usepulses statement)
-H_N == { Hdr(<<DLet("z", NumI(-2))>>, <<DReg("q", I2)>>, <<".vpulses">>, <<>>) }
-T_N == { G("prepare_all", <<>>), G("measure_all", <<>>), G("X", <<QI("q", 0)>>) }
-O_N == { OLoop(NumI(-1), FALSE), OLoop(Let("z"), FALSE), OLoop(I0, FALSE), OLoop(I2, FALSE), OSeq }
+FINF == NumF("1.0e999", "inf", 0, FALSE)
+H_N == { Hdr(<<DLet("z", NumI(-2)), DLet("y", F15), DLet("w", FINF)>>, <<DReg("q", I2)>>, <<".vpulses">>, <<>>) }
+\* (R takes an INT: an infinite literal or constant must be refused with JaqalError, not OverflowError)
+T_N == { G("prepare_all", <<>>), G("measure_all", <<>>), G("X", <<QI("q", 0)>>), G("R", <<QI("q", 0), FINF>>), G("R", <<QI("q", 1), Let("w")>>) }
+O_N == { OLoop(NumI(-1), FALSE), OLoop(Let("z"), FALSE), OLoop(I0, FALSE), OLoop(I2, FALSE), OSeq,
+         OLoop(Let("y"), FALSE), OLoop(Let("w"), FALSE) }     \* non-integral and infinite constants as loop counts
 
 \* ---------------------------------------------------------------- C19: alternating seq / par nestings
 H_T == { Hdr(<<DLet("a", I1)>>, <<DReg("q", NumI(5))>>, <<"mypulses.sub">>, <<>>) }
@@ -193,7 +199,9 @@ T_TL == { G("g", <<QI("q", 0)>>), G("g", <<QI("q", 1)>>) }
 O_TL == { OSeq, OPar, OLoop(I2, FALSE) }
 
 \* ---------------------------------------------------------------- C17: programs expressible in all three front ends
-H_F == { Hdr(<<DLet("a", I2), DLet("__r0", I3), DLet("__c0", I1)>>, <<DReg("q", Let("__r0"))>>, <<>>, <<>>) }
+\* (second header: two constants with EQUAL values - left anonymous, Q-syntax must still keep them apart)
+H_F == { Hdr(<<DLet("a", I2), DLet("__r0", I3), DLet("__c0", I1)>>, <<DReg("q", Let("__r0"))>>, <<>>, <<>>),
+         Hdr(<<DLet("a", I2), DLet("__r0", I3), DLet("__c0", I2)>>, <<DReg("q", Let("__r0"))>>, <<>>, <<>>) }
 T_F == { G("g", <<QI("q", 0), F15>>), G("k", <<Qb("q", Let("a"))>>), G("h", <<Let("a"), Let("__c0")>>), G("prepare_all", <<>>) }
 O_F == { OSeq, OPar, OLoop(Let("a"), FALSE), OLoop(I2, FALSE), OLoop(I0, FALSE), OSub(I1), OSub(I0), OSub(Let("__r0")) }
 
